@@ -1,7 +1,7 @@
 (* Bounding boxes of lines (C02 line part) and their translation (C07 line part):
    Line::bounding_box (mod.rs:71-75), Line::extents (mod.rs:109-170), styled_bounding_box (styled.rs:72-88). *)
 From EG Require Import Base.Prelude Base.Lemmas Model.Geometry Model.Style Model.Line Model.Thickline
-                       Proofs.Geometry Proofs.GeometryTranslate Proofs.Line Proofs.Thickline.
+                       Proofs.Geometry Proofs.GeometryTranslate Proofs.Line Proofs.Thickline Proofs.ThicklineRot.
 From Coq Require Import ZifyBool.
 
 Ltac Zify.zify_post_hook ::= Z.to_euclidean_division_equations.
@@ -186,4 +186,129 @@ Proof.
   rewrite forallb_forall in H. specialize (H (ldy l) ltac:(apply In_range; lia)).
   rewrite forallb_forall in H. specialize (H w ltac:(apply In_range; lia)).
   rewrite (line_as_translate0 l). apply thick_in_box_translate, thick_in_box_b_sound, H.
+Qed.
+
+(* ---- rotation by 90 degrees (generic lines, Proofs/ThicklineRot.v) ------------------------------------ *)
+Definition rot_pt (e : point * ltype) : point * ltype := (rot (fst e), snd e).
+Definition rot_pair (x : (point * ltype) * (point * ltype)) := (rot_pt (fst x), rot_pt (snd x)).
+
+Lemma last_alternating_rot ps : forall rt a b,
+  last_alternating (rot_pars ps) rt (rot_pt a) (rot_pt b) = rot_pair (last_alternating ps rt a b).
+Proof.
+  induction ps as [|[bs t] ps IH]; intros rt a b; [reflexivity|].
+  cbn [rot_pars map last_alternating fst snd]. fold (rot_pars ps).
+  destruct rt.
+  - change (b_point (rot_bs bs), t) with (rot_pt (b_point bs, t)). apply IH.
+  - change (b_point (rot_bs bs), t) with (rot_pt (b_point bs, t)). apply IH.
+Qed.
+
+Lemma extents_rot l w so : generic l ->
+  extents (rot_line l) w so = option_map (fun ab => (rot_line (fst ab), rot_line (snd ab))) (extents l w so).
+Proof.
+  intros G. unfold extents. rewrite (parallels_rot _ _ _ G).
+  rewrite (generic_nondeg _ G), (generic_nondeg _ (generic_rot _ G)), (bparams_rot _ G), delta_rot.
+  destruct (parallels l (sat_u32_to_i32 w) so) as [ps|]; cbn [option_map]; [|reflexivity].
+  cbn [rot_bp pos_step_major pos_step_minor]. rewrite <- rot_padd.
+  set (init := (l_start l, LNormal)).
+  change (l_start (rot_line l), LNormal) with (rot_pt init).
+  set (red := padd (pos_step_major (bparams_new l)) (pos_step_minor (bparams_new l))).
+  set (delta := psub (l_end l) (l_start l)).
+  assert (LP : match last_opt (rot_pars ps) with Some (b, t) => (b_point b, t) | None => rot_pt init end
+               = rot_pt (match last_opt ps with Some (b, t) => (b_point b, t) | None => init end)).
+  { unfold rot_pars. rewrite last_opt_map. destruct (last_opt ps) as [[b t]|]; reflexivity. }
+  rewrite LP. set (lastp := match last_opt ps with Some (b, t) => (b_point b, t) | None => init end).
+  assert (MK : forall e, L (fst (rot_pt e)) (psub (padd (fst (rot_pt e)) (rot delta))
+                            (match snd (rot_pt e) with LNormal => P 0 0 | LExtra => rot red end))
+                     = rot_line (L (fst e) (psub (padd (fst e) delta)
+                            (match snd e with LNormal => P 0 0 | LExtra => red end)))).
+  { intros [q t]. unfold rot_pt, rot_line. cbn [fst snd l_start l_end]. f_equal.
+    rewrite rot_psub, rot_padd. destruct t; reflexivity. }
+  destruct so.
+  - rewrite last_alternating_rot. destruct (last_alternating ps true init init) as [a b].
+    unfold rot_pair. cbn [fst snd]. rewrite !MK. reflexivity.
+  - rewrite !MK. reflexivity.
+  - rewrite !MK. reflexivity.
+Qed.
+
+Lemma contains_wc c1 c2 p :
+  contains (with_corners c1 c2) p = true <->
+  (Z.min (px c1) (px c2) <= px p <= Z.max (px c1) (px c2)) /\ (Z.min (py c1) (py c2) <= py p <= Z.max (py c1) (py c2)).
+Proof.
+  rewrite contains_spec. unfold with_corners, size_from_bounding_box. cbn [tl sz sw sh px py]. lia.
+Qed.
+
+Lemma box_of_rot a b p : contains (box_of (rot_line a, rot_line b)) (rot p) = contains (box_of (a, b)) p.
+Proof.
+  apply Bool.eq_true_iff_eq. unfold box_of. rewrite !contains_wc.
+  unfold component_min, component_max, rot_line, rot. cbn [l_start l_end px py].
+  rewrite <- !Z.opp_max_distr, <- !Z.opp_min_distr.
+  set (mx := Z.min (Z.min (Z.min (px (l_start a)) (px (l_end a))) (px (l_start b))) (px (l_end b))).
+  set (Mx := Z.max (Z.max (Z.max (px (l_start a)) (px (l_end a))) (px (l_start b))) (px (l_end b))).
+  set (my := Z.min (Z.min (Z.min (py (l_start a)) (py (l_end a))) (py (l_start b))) (py (l_end b))).
+  set (My := Z.max (Z.max (Z.max (py (l_start a)) (py (l_end a))) (py (l_start b))) (py (l_end b))).
+  clearbody mx Mx my My. lia.
+Qed.
+
+Lemma thick_in_box_rot l w : generic l -> thick_in_box l w -> thick_in_box (rot_line l) w.
+Proof.
+  intros G (ps & r & E & Bx & H).
+  destruct (extents l w SONone) as [[a b]|] eqn:EX.
+  - exists (map rot ps), (box_of (rot_line a, rot_line b)).
+    split; [rewrite (thick_points_rot l w G), E; reflexivity|]. split.
+    + intros st Hst. rewrite styled_bbox_eq, Hst, (extents_rot l w SONone G), EX. reflexivity.
+    + intros p' Hp'. apply in_map_iff in Hp'. destruct Hp' as (p & <- & Hp).
+      rewrite box_of_rot.
+      assert (R : r = box_of (a, b)).
+      { specialize (Bx (Style None None w Center Solid) eq_refl). rewrite styled_bbox_eq in Bx.
+        cbn [stroke_width] in Bx. rewrite EX in Bx. cbn [option_map] in Bx. injection Bx as <-. reflexivity. }
+      rewrite <- R. apply H, Hp.
+  - specialize (Bx (Style None None w Center Solid) eq_refl). rewrite styled_bbox_eq in Bx.
+    cbn [stroke_width] in Bx. rewrite EX in Bx. discriminate Bx.
+Qed.
+
+Definition box_diag_b (R W : Z) : bool :=
+  forallb (fun k => forallb (fun w => thick_in_box_b (L (P 0 0) (P k k)) w && thick_in_box_b (L (P 0 0) (P k (- k))) w)
+                            (range 0 (W + 1))) (range (- R) (R + 1)).
+
+Lemma origin_line_box dx dy w l : thick_in_box (L (P 0 0) (P dx dy)) w -> ldx l = dx -> ldy l = dy -> thick_in_box l w.
+Proof. intros H <- <-. rewrite (line_as_translate0 l). apply thick_in_box_translate, H. Qed.
+
+Theorem thick_in_box_sym R W :
+  box_grid_b 1 (R + 1) 1 (R + 1) W = true -> box_grid_b 0 1 (- R) (R + 1) W = true ->
+  box_grid_b (- R) (R + 1) 0 1 W = true -> box_diag_b R W = true ->
+  forall l w, - R <= ldx l <= R -> - R <= ldy l <= R -> 0 <= w <= W -> thick_in_box l w.
+Proof.
+  intros Q1 AX1 AX2 DG l w Hx Hy Hw.
+  destruct (Z.eq_dec (ldx l) 0) as [X0|X0]; [apply (box_grid_b_sound _ _ _ _ _ AX1); lia|].
+  destruct (Z.eq_dec (ldy l) 0) as [Y0|Y0]; [apply (box_grid_b_sound _ _ _ _ _ AX2); lia|].
+  destruct (Z.eq_dec (Z.abs (ldx l)) (Z.abs (ldy l))) as [DD|DD].
+  - unfold box_diag_b in DG. rewrite forallb_forall in DG. specialize (DG (ldx l) ltac:(apply In_range; lia)).
+    rewrite forallb_forall in DG. specialize (DG w ltac:(apply In_range; lia)).
+    apply andb_prop in DG. destruct DG as [D1 D2].
+    destruct (Z.eq_dec (ldy l) (ldx l)) as [E|E].
+    + apply (origin_line_box (ldx l) (ldx l)); [apply thick_in_box_b_sound, D1 | reflexivity | exact E].
+    + apply (origin_line_box (ldx l) (- ldx l)); [apply thick_in_box_b_sound, D2 | reflexivity | lia].
+  - assert (QQ : forall a b, 1 <= a <= R -> 1 <= b <= R -> thick_in_box (L (P 0 0) (P a b)) w).
+    { intros a b Ha Hb. apply (box_grid_b_sound _ _ _ _ _ Q1); unfold ldx, ldy; cbn [l_start l_end px py]; lia. }
+    assert (GO : forall a b, a <> 0 -> b <> 0 -> Z.abs a <> Z.abs b -> generic (L (P 0 0) (P a b))).
+    { intros a b. unfold generic, ldx, ldy. cbn [l_start l_end px py]. lia. }
+    assert (RO : forall a b, rot_line (L (P 0 0) (P a b)) = L (P 0 0) (P (- b) a)) by reflexivity.
+    destruct (Z_lt_ge_dec 0 (ldx l)) as [XP|XN]; destruct (Z_lt_ge_dec 0 (ldy l)) as [YP|YN].
+    + apply (origin_line_box (ldx l) (ldy l)); [apply QQ; lia | reflexivity | reflexivity].
+    + apply (origin_line_box (ldx l) (ldy l)); [| reflexivity | reflexivity].
+      replace (L (P 0 0) (P (ldx l) (ldy l)))
+        with (rot_line (rot_line (rot_line (L (P 0 0) (P (- ldy l) (ldx l))))))
+        by (rewrite !RO; f_equal; f_equal; lia).
+      apply thick_in_box_rot; [rewrite !RO; apply GO; lia|].
+      apply thick_in_box_rot; [rewrite !RO; apply GO; lia|].
+      apply thick_in_box_rot; [apply GO; lia|]. apply QQ; lia.
+    + apply (origin_line_box (ldx l) (ldy l)); [| reflexivity | reflexivity].
+      replace (L (P 0 0) (P (ldx l) (ldy l))) with (rot_line (L (P 0 0) (P (ldy l) (- ldx l))))
+        by (rewrite !RO; f_equal; f_equal; lia).
+      apply thick_in_box_rot; [apply GO; lia|]. apply QQ; lia.
+    + apply (origin_line_box (ldx l) (ldy l)); [| reflexivity | reflexivity].
+      replace (L (P 0 0) (P (ldx l) (ldy l))) with (rot_line (rot_line (L (P 0 0) (P (- ldx l) (- ldy l)))))
+        by (rewrite !RO; f_equal; f_equal; lia).
+      apply thick_in_box_rot; [rewrite !RO; apply GO; lia|].
+      apply thick_in_box_rot; [apply GO; lia|]. apply QQ; lia.
 Qed.
